@@ -57,6 +57,9 @@ FIXED = [
  ("KF-C09-5", "C09", "a89bad3", "C09.no_foreign_events", "a probe or overlay activated while a generator is suspended hears nothing of the calls the generator makes once it runs again (the generator keeps the collection it was started with; side effect of 468b424)"),
  ("KF-C08-1", "C08", "58916a9", "C08.quiescent", "two threads activating probes on the same function race in _tooler/push/_apply: 'NoneType is not iterable' / not properly tooled / counters left over"),
  ("KF-C17-4", "C17", "1c11048", "demo:findings/review/R4/demo_1.py", "a probe whose deactivation fails before anything is undone (attempted from a copy of the context it was activated in) is marked as torn down all the same: no later deactivate(), nor the exit hook, ever uninstalls it (regression of 0f26a75)"),
+ ("KF-C14-4", "C14", "741173b", "C14.resolves", "the reference of a method decorated with @tooled is that of a top-level function of the same name (the tooled copy's qualified name is the bare name): it selects another function, or none"),
+ ("KF-C17-5", "C17", "6a8a761", "C17.stream", "a probe deactivated before it was ever activated completes its stream there and then (count() publishes 0): activated afterwards it delivers nothing"),
+ ("KF-C04-7", "C04", "7cda4a2", "demo:findings/review/extra/demo_rebase_order.py", "for the calls a resumed generator makes, an overlay that was active when the generator started and is entered again after another one does not take precedence although it is the most recently activated (order of the pairs in proceed._rebase; side effect of a89bad3)"),
  ("KF-C08-3", "C08", "a93c42f", "C08.no_exception", "a thread that selects a function through its reference string while another thread activates or deactivates a probe on it is refused: 'Reference ... cannot be resolved' / 'is ambiguous' (the lookup is not covered by the tooling lock)"),
  ("KF-C08-4", "C08", "184cfaa", "demo:findings/review/R3/demo_6b.py", "tooled.inplace runs outside the tooling lock: a probe activated by another thread in between leaves the function refused ('not properly tooled') for good (regression of be94eb2 + 58916a9)"),
  ("KF-C08-2", "C08", "13c39f3", "C08.thread_result", "a thread calling f by name while another thread's probe activation compiles f's variant runs the variant function object (its events are lost, or its self-reference global is not installed yet: NameError '_ptera__N')"),
